@@ -164,6 +164,10 @@ template <class X> struct Hist {
                 Str ta = text(a), tb = text(b);
                 if (deep_snapshot<X>(s[a].u) != snapA || deep_snapshot<X>(s[b].u) != snapB) c->violation("C12", fmt("hist/%s/readonly-query-modified-argument", X::tag()), trace);
                 if (eq != eq2) c->violation("C11", fmt("hist/%s/equals-not-symmetric", X::tag()), fmt("a=%s b=%s", s[a].origin.c_str(), s[b].origin.c_str()));
+                // first sentence of C11 on the structures themselves -- for every pair, whatever its past
+                { bool same = struct_key<X>(s[a].u) == struct_key<X>(s[b].u);
+                  if ((eq != 0) != same) c->violation("C11", fmt("hist/%s/equals-vs-structure/%s", X::tag(), eq ? "equal-but-a-component-differs" : "all-components-identical-not-equal"), fmt("a=%s b=%s history: %s", s[a].origin.c_str(), s[b].origin.c_str(), trace.c_str()));
+                  else c->count(same ? "structure_agree_equal" : "structure_agree_different"); }
                 bool judged = !s[a].damaged && !s[b].damaged;      // (objects with a failed operation in their past: see check_object)
                 if (!judged) c->count("equals_pairs_not_judged_damaged_lineage");
                 else if ((eq != 0) != (ta == tb)) c->violation("C11", fmt("hist/%s/equals-vs-text/%s", X::tag(), eq ? "equal-but-texts-differ" : "same-text-not-equal"), fmt("a=%s text=\"%s\" b=%s text=\"%s\"", s[a].origin.c_str(), esc(ta).c_str(), s[b].origin.c_str(), esc(tb).c_str()));
